@@ -236,8 +236,65 @@ fn run_root_case(
     let _ = fs::remove_dir_all(&top);
 }
 
+/// Boundary cases of the link budget: lookups that traverse exactly `n` symlinks, as one chain and spread over
+/// eight components.  The kernel follows at most 40 links (`MAXSYMLINKS`); the property quantifies over lookups of
+/// at most 40 traversals, on which both backends must agree with the kernel.
+fn ladder_cases(with_mkdir: bool, over: bool) -> Vec<(TreeSpec, Op)> {
+    let mut out = Vec::new();
+    let ns: &[usize] = if over { &[39, 40, 41] } else { &[39, 40] };
+    for &n in ns {
+        let mut spec = TreeSpec::default();
+        spec.entries.push(tree::Entry { path: b"t".to_vec(), kind: tree::Kind::Dir, mode: 0o755 });
+        spec.entries.push(tree::Entry { path: b"t/f".to_vec(), kind: tree::Kind::File, mode: 0o644 });
+        spec.entries.push(tree::Entry { path: b"l0".to_vec(), kind: tree::Kind::Link(b"t".to_vec()), mode: 0o777 });
+        for i in 1..n {
+            spec.entries.push(tree::Entry {
+                path: format!("l{i}").into_bytes(),
+                kind: tree::Kind::Link(format!("l{}", i - 1).into_bytes()),
+                mode: 0o777,
+            });
+        }
+        let top = format!("l{}", n - 1);
+        out.push((spec.clone(), Op::Resolve { path: format!("{top}/f").into_bytes(), nofollow: false }));
+        out.push((spec.clone(), Op::Resolve { path: top.clone().into_bytes(), nofollow: true }));
+        out.push((spec.clone(), Op::OpenSubpath { path: format!("{top}/f").into_bytes(), flags: libc::O_RDONLY }));
+        if with_mkdir {
+            out.push((spec.clone(), Op::MkdirAll { path: format!("{top}/new/dir").into_bytes(), mode: 0o755 }));
+            out.push((spec.clone(), Op::RemoveFile { path: format!("{top}/f").into_bytes() }));
+        }
+    }
+    // 8 components x 5 links = 40 traversals (a0 -> a1 -> a2 -> a3 -> a4 -> ".")
+    let mut spec = TreeSpec::default();
+    spec.entries.push(tree::Entry { path: b"t".to_vec(), kind: tree::Kind::Dir, mode: 0o755 });
+    spec.entries.push(tree::Entry { path: b"t/f".to_vec(), kind: tree::Kind::File, mode: 0o644 });
+    spec.entries.push(tree::Entry { path: b"a4".to_vec(), kind: tree::Kind::Link(b".".to_vec()), mode: 0o777 });
+    for i in (0..4).rev() {
+        spec.entries.push(tree::Entry {
+            path: format!("a{i}").into_bytes(),
+            kind: tree::Kind::Link(format!("a{}", i + 1).into_bytes()),
+            mode: 0o777,
+        });
+    }
+    let p40 = format!("{}t/f", "a0/".repeat(8));
+    out.push((spec.clone(), Op::Resolve { path: p40.clone().into_bytes(), nofollow: false }));
+    out.push((spec.clone(), Op::Readlink { path: format!("{}a0", "a0/".repeat(7)).into_bytes() }));
+    if with_mkdir {
+        out.push((spec, Op::MkdirAll { path: format!("{}t/new", "a0/".repeat(8)).into_bytes(), mode: 0o700 }));
+    }
+    out
+}
+
 fn suite_root(ctx: &mut Ctx, seed: u64, n: usize, class: gen::OpClass) {
     let mut rng = Rng::new(seed);
+    if matches!(class, gen::OpClass::All | gen::OpClass::Lookups) {
+        let backends: &[bool] = if ctx.no_openat2 { &[true] } else { &[false, true] };
+        for (j, (spec, op)) in ladder_cases(matches!(class, gen::OpClass::All), matches!(class, gen::OpClass::Lookups)).into_iter().enumerate() {
+            for &emu in backends {
+                let id = format!("L{j}{}", if emu { "e" } else { "k" });
+                run_root_case(ctx, &id, 0, &spec, &op, emu, ResolverFlags::empty());
+            }
+        }
+    }
     for i in 0..n {
         let mut crng = rng.fork();
         let case_seed = crng.0;
@@ -373,6 +430,7 @@ fn main() {
             attack::suite_attack(&mut ctx, seed, n, per)
         }
         "reopen-unshared" => attack::suite_reopen_unshared(&mut ctx),
+        "reopen-fault" => procsuite::suite_reopen_fault(&mut ctx, seed),
         "race" => {
             let op = arg_val(&args, "--op").unwrap_or_else(|| "mkdir_all".into());
             attack::suite_race(&mut ctx, seed, n, &op)
